@@ -7,6 +7,7 @@ import GqlVerif.Driver.ExtOps
 import GqlVerif.Driver.Messages
 import GqlVerif.Driver.Encode
 import GqlVerif.Model.Transformer
+import GqlVerif.Gen.IntrospectionShape
 import GqlVerif.Spec.TypeSystem
 open Lean Gql Gql.Driver
 
@@ -23,6 +24,22 @@ def allSelectionSets (d : Document) : List (List Selection) :=
   d.flatMap fun
     | .op o => selSetsOf o.sel
     | .frag f => selSetsOf f.sel
+
+partial def toJ : Json → Gql.Codec.J
+  | .null => .null
+  | .bool b => .bool b
+  | .num n => .num (toString n)
+  | .str s => .str s
+  | .arr a => .arr (a.toList.map toJ)
+  | .obj kvs => .obj (kvs.toList.map fun (k, v) => (k, toJ v))
+
+partial def ofJ : Gql.Codec.J → Json
+  | .null => .null
+  | .bool b => .bool b
+  | .num r => (match Json.parse r with | .ok j => j | .error _ => .str r)
+  | .str s => .str s
+  | .arr l => .arr (l.map ofJ).toArray
+  | .obj kvs => Json.mkObj (kvs.map fun (k, v) => (k, ofJ v))
 
 structure DState where
   strings : Array String := #[]
@@ -114,6 +131,20 @@ def handle (st : DState) (j : Json) : D (DState × Json) := do
       | .value => "value" | .varDef => "varDef"
     pure (st, Json.mkObj [("keep", r.1.shouldKeep), ("doc", jDocument (r.1.getD d)),
       ("log", Json.arr (r.2.map fun (e : LogEntry) => Json.arr #[Json.str (hookName e.1), (e.2 : Json)]).toArray)])
+  | "introspect" =>
+    let text ← str (← field j "json")
+    match Json.parse text with
+    | .error _ => pure (st, Json.mkObj [("r", "err"), ("why", "malformed")])
+    | .ok js =>
+      let jj := toJ js
+      match Gql.Codec.decode Gql.Gen.introspectionEnv (Gql.Codec.fuelFor jj) Gql.Gen.introspectionRoot jj with
+      | none => pure (st, Json.mkObj [("r", "err"), ("why", "shape")])
+      | some v =>
+        let out := Gql.Codec.encode v
+        -- decode(encode v) = v ?  (re-serialisation is a fixpoint)
+        let again := Gql.Codec.decode Gql.Gen.introspectionEnv (Gql.Codec.fuelFor out) Gql.Gen.introspectionRoot out
+        let fix := match again with | some v2 => (ofJ (Gql.Codec.encode v2)).compress == (ofJ out).compress | none => false
+        pure (st, Json.mkObj [("r", "ok"), ("canon", ofJ out), ("fixpoint", fix)])
   | "svisit" =>
     match schemaVisit st.schema with
     | none => pure (st, Json.mkObj [("outcome", "panic")])
